@@ -209,11 +209,20 @@ AttrRun(impl, st, hist, i) ==
 (*   "position": strength i goes with the caller's i-th metric             *)
 (*   "sorted"  : the metrics are re-ordered alphabetically first, so the   *)
 (*               caller's i-th metric is weighted with strength rank[i]    *)
+(*   "dropinf" : metrics whose target is infinite (INF: "unconstrained",   *)
+(*               excess always 0) are dropped from the dict while the      *)
+(*               strengths stay positional, so every metric after one is   *)
+(*               weighted with its predecessor's strength                  *)
 (***************************************************************************)
+INF == 1000000          \* stands for float('inf') as a target (the harness passes the real infinity)
+StrengthIdx(impl, rank, t, i) ==
+    IF impl = "sorted" THEN rank[i]
+    ELSE IF impl = "dropinf" THEN Cardinality({j \in 1..i : t[j] # INF})
+    ELSE i
 RECURSIVE PairedFrom(_, _, _, _, _, _, _, _)
 PairedFrom(impl, rank, s, c, t, e, n, i) ==
     IF i > Len(s) THEN 0
-    ELSE EffU(s[IF impl = "sorted" THEN rank[i] ELSE i], e, n) * Excess(c[i], t[i])
+    ELSE (IF t[i] = INF THEN 0 ELSE EffU(s[StrengthIdx(impl, rank, t, i)], e, n) * Excess(c[i], t[i]))
          + PairedFrom(impl, rank, s, c, t, e, n, i + 1)
 PairedPen(impl, rank, s, c, t, e, n) == PairedFrom(impl, rank, s, c, t, e, n, 1)
 IsPermutation(rank) == {rank[i] : i \in DOMAIN rank} = 1..Len(rank)
